@@ -1,7 +1,7 @@
 """C12 — the signing check (DESIGN §4 C12)."""
 import ast
 
-from .common import ctx, returns, calls_in_ctx, site, reach_from_succ, bulk_appends, explore
+from .common import ctx, returns, calls_in_ctx, site, reach_from_succ, bulk_appends, explore, full_text
 from .lvs import merge_key_rule, match_rules, CK, CP, last_component_guarded, eq_label
 from ..flow import callee_attr
 from ..loader import AnalysisError, norm
@@ -38,12 +38,12 @@ def run(R):
         others = [r for r in returns(ck) if r not in trues]
         mem = [t for t in ck.cfg.nodes if t.kind == 'test' and isinstance(t.ast, ast.Compare) and isinstance(t.ast.ops[0], ast.In)]
         if len(it) == 2 and len(ot) == 2:
-            pn = [v for n in ck.cfg.nodes for (nm, v) in ck.cfg.defs_of(n) if nm == 'pkt_node']
-            okmem = len(mem) == 1 and ast.unparse(mem[0].ast.left) == it[0] and ast.unparse(mem[0].ast.comparators[0]) == 'pkt_node.sign_cons' \
-                and pn and all(isinstance(v, ast.AST) and ast.unparse(v) == f'self.model.nodes[{ot[0]}]' for v in pn)
+            # read through locals (`pkt_node = self.model.nodes[id]`, `allowed = pkt_node.sign_cons`)
+            okmem = len(mem) == 1 and ast.unparse(mem[0].ast.left) == it[0] and full_text(ck, mem[0].ast.comparators[0]) == f'self.model.nodes[{ot[0]}].sign_cons'
             if not okmem:
                 probs.append(('the signer test is not `<key node> in <packet node>.sign_cons`', mem[0].ast if mem else ck.f.node))
-            elif not trues or any(r.id in ck.cfg.reachable(removed_edges={(mem[0].id, True)}) for r in trues):
+            elif not trues or any(r.id in explore(ck, lambda e: False if e is mem[0].ast else None) for r in trues):
+                # (path-sensitive: with the membership test false - boolean flags followed - no `return True` is reachable)
                 probs.append(('yes can be answered without the key node being a listed signer', trues[0].ast if trues else ck.f.node))
         if not others or any(not (isinstance(r.ast.value, ast.Constant) and r.ast.value.value is False) for r in others):
             probs.append(('the default answer is not False', ck.f.node))
